@@ -6,7 +6,6 @@ import (
 	"context"
 	"encoding/base64"
 	"fmt"
-	"io"
 	"os"
 	"os/signal"
 	"strings"
@@ -1246,7 +1245,7 @@ func (vx *Vaxis) sendQueries() {
 	// the console, so the probe it measures has to be written directly as
 	// well: left in the buffered writer it would reach the terminal only
 	// after the cursor position had been reported
-	_, _ = io.WriteString(vx.console, "\x1b[H"+tparm(explicitWidth, 1, " "))
+	_, _ = vx.tw.WriteStringLocked("\x1b[H" + tparm(explicitWidth, 1, " "))
 	_, col := vx.CursorPosition()
 	if col == 1 {
 		log.Debug("[capability] explicit width supported")
@@ -1386,7 +1385,7 @@ func (vx *Vaxis) Suspend() error {
 	//    loop
 	// 3. Confirm we have closed
 	vx.parser.Close()
-	io.WriteString(vx.console, primaryAttributes)
+	vx.tw.WriteStringLocked(primaryAttributes)
 	verifhook.At("vaxis.suspend.beforeWait")
 	vx.parser.WaitClose()
 
@@ -1429,7 +1428,13 @@ func (vx *Vaxis) openTty(tgts []*os.File) error {
 		return err
 	}
 
-	vx.tw = newWriter(vx)
+	if vx.tw == nil {
+		vx.tw = newWriter(vx)
+	} else {
+		// Keep the writer across Suspend/Resume: other goroutines (queries,
+		// notifications) write through it at any time
+		vx.tw.setOutput(vx.console)
+	}
 	vx.parser = ansi.NewParser(vx.console)
 	// The goroutine keeps reading from this parser until it ends. A Resume
 	// installs a new parser in vx.parser, which belongs to the next goroutine
@@ -1540,7 +1545,7 @@ func (vx *Vaxis) CursorPosition() (row int, col int) {
 	default:
 	}
 	atomicStore(&vx.reqCursorPos, true)
-	_, _ = io.WriteString(vx.console, dsrcpr)
+	_, _ = vx.tw.WriteStringLocked(dsrcpr)
 	timeout := time.NewTimer(50 * time.Millisecond)
 	select {
 	case <-timeout.C:
@@ -1572,7 +1577,7 @@ func (vx *Vaxis) cursorStyle() string {
 // ClipboardPush copies the provided string to the system clipboard
 func (vx *Vaxis) ClipboardPush(s string) {
 	b64 := base64.StdEncoding.EncodeToString([]byte(s))
-	_, _ = io.WriteString(vx.console, tparm(osc52put, b64))
+	_, _ = vx.tw.WriteStringLocked(tparm(osc52put, b64))
 }
 
 // ClipboardPop requests the content from the system clipboard. ClipboardPop works by
@@ -1581,7 +1586,7 @@ func (vx *Vaxis) ClipboardPush(s string) {
 // a context to set a deadline for this function to return. An error will be
 // returned if the context is cancelled.
 func (vx *Vaxis) ClipboardPop(ctx context.Context) (string, error) {
-	_, _ = io.WriteString(vx.console, osc52pop)
+	_, _ = vx.tw.WriteStringLocked(osc52pop)
 	select {
 	case str := <-vx.chClipboard:
 		return str, nil
@@ -1594,25 +1599,25 @@ func (vx *Vaxis) ClipboardPop(ctx context.Context) (string, error) {
 // string, OSC9 will be used - otherwise osc777 is used
 func (vx *Vaxis) Notify(title string, body string) {
 	if title == "" {
-		_, _ = io.WriteString(vx.console, tparm(osc9notify, body))
+		_, _ = vx.tw.WriteStringLocked(tparm(osc9notify, body))
 		return
 	}
-	_, _ = io.WriteString(vx.console, tparm(osc777notify, title, body))
+	_, _ = vx.tw.WriteStringLocked(tparm(osc777notify, title, body))
 }
 
 // SetTitle sets the terminal's title via OSC 2
 func (vx *Vaxis) SetTitle(s string) {
-	_, _ = io.WriteString(vx.console, tparm(setTitle, s))
+	_, _ = vx.tw.WriteStringLocked(tparm(setTitle, s))
 }
 
 // SetAppID sets the terminal's application ID via OSC 176
 func (vx *Vaxis) SetAppID(s string) {
-	_, _ = io.WriteString(vx.console, tparm(setAppID, s))
+	_, _ = vx.tw.WriteStringLocked(tparm(setAppID, s))
 }
 
 // Bell sends a BEL control signal to the terminal
 func (vx *Vaxis) Bell() {
-	_, _ = vx.console.Write([]byte{0x07})
+	_, _ = vx.tw.WriteStringLocked("\x07")
 }
 
 // advance returns the extra amount to advance the column by when rendering
